@@ -83,6 +83,27 @@ pub enum Vp {
     U8New,
     /// `value_parser!(PathBuf)`: anything but the empty string
     PathBuf,
+    /// `EnumValueParser::<ModelSpeed>`: `fast` (alias `quick`), `slow` (hidden from help, alias `lazy`)
+    Enum,
+}
+
+/// The value enum behind [`Vp::Enum`]
+#[derive(Clone, Copy, Debug, PartialEq, Eq)]
+pub enum ModelSpeed {
+    Fast,
+    Slow,
+}
+
+impl clap::ValueEnum for ModelSpeed {
+    fn value_variants<'a>() -> &'a [Self] {
+        &[ModelSpeed::Fast, ModelSpeed::Slow]
+    }
+    fn to_possible_value(&self) -> Option<PossibleValue> {
+        Some(match self {
+            ModelSpeed::Fast => PossibleValue::new("fast").alias("quick"),
+            ModelSpeed::Slow => PossibleValue::new("slow").alias("lazy").hide(true),
+        })
+    }
 }
 
 #[derive(Clone, Debug, PartialEq, Eq, Hash, Default, Serialize, Deserialize)]
@@ -414,6 +435,7 @@ pub fn build_arg(s: &ArgSpec) -> Arg {
         Vp::NonEmpty => a = a.value_parser(clap::builder::NonEmptyStringValueParser::new()),
         Vp::U8New => a = a.value_parser(clap::builder::RangedI64ValueParser::<u8>::new()),
         Vp::PathBuf => a = a.value_parser(value_parser!(std::path::PathBuf)),
+        Vp::Enum => a = a.value_parser(clap::builder::EnumValueParser::<ModelSpeed>::new()),
         Vp::Pv(pvs) => {
             let vals: Vec<PossibleValue> = pvs
                 .iter()
